@@ -260,8 +260,13 @@ pub fn concrete(w: &World, f: &Fault) -> String {
     }
 }
 
+/// canonical content of a log entry (the metadata is a HashMap: its serialisation order differs
+/// between two decoded instances of the same bytes, so the serialised form cannot be compared)
 fn entry_bytes(e: &WalEntry) -> Vec<u8> {
-    bincode::serialize(e).unwrap_or_default()
+    let mut md: Vec<(&String, &String)> = e.metadata.iter().collect();
+    md.sort();
+    let emb: Vec<u32> = e.embedding.iter().map(|x| x.to_bits()).collect();
+    format!("{:?}|{}|{:?}|{:?}|{}|{}", e.op, e.doc_id, emb, md, e.seq_no, e.timestamp).into_bytes()
 }
 
 /// what the real readers see in the damaged file, in isolation
@@ -321,13 +326,32 @@ pub fn view(w: &World, base: &BTreeMap<String, Vec<u8>>, f: &Fault, tmp: &std::p
                 let pc = tmp.join("clean.snap");
                 std::fs::write(&pc, base.get(&f.file).unwrap()).expect("tmp write");
                 let same = match Snapshot::load(&pc) {
-                    Ok(c) => bincode::serialize(&c).ok() == bincode::serialize(&s).ok(),
+                    Ok(c) => snap_canon(&c) == snap_canon(&s),
                     Err(_) => false,
                 };
                 if same { format!("sok:{n}") } else { format!("salt:{n}") }
             }
         }
     }
+}
+
+/// canonical content of a snapshot (metadata maps sorted; see `entry_bytes`)
+fn snap_canon(s: &Snapshot) -> String {
+    let docs: Vec<(u64, Vec<u32>)> =
+        s.documents.iter().map(|(id, v)| (*id, v.iter().map(|x| x.to_bits()).collect())).collect();
+    let md: Vec<(u64, Vec<(&String, &String)>)> = s
+        .metadata
+        .iter()
+        .map(|(id, m)| {
+            let mut kv: Vec<(&String, &String)> = m.iter().collect();
+            kv.sort();
+            (*id, kv)
+        })
+        .collect();
+    format!(
+        "{}|{}|{}|{}|{:?}|{:?}|{:?}|{}",
+        s.version, s.timestamp, s.doc_count, s.dimension, docs, md, s.distance, s.last_wal_seq
+    )
 }
 
 trait OpenBytes {
